@@ -58,6 +58,7 @@ fn usage() -> ! {
 
 fn main() {
     core::install_panic_hook();
+    core::init_trace();
     let args: Vec<String> = std::env::args().skip(1).collect();
     if args.is_empty() {
         usage();
